@@ -17,7 +17,8 @@ RULE = ("shots from the shared generator (all tables, slow to fast, look +-60 de
         "or as a quantity in any of the 10 distance units; time_step 0 or 1e-3..1 s; max_calc_step_size_feet in "
         "{0.25,0.5,1,2}; cases that raise RangeError or turn back are classified out-of-domain; non-trivial = in-domain, "
         ">= 3 required rows and (non-dividing step, or |range component of wind| > 1 fps, or a unit other than feet, or "
-        "time_step > 0); distinct = distinct case dicts")
+        "time_step > 0); distinct = distinct case dicts; in 4 of 7 cases the calculator under test has a past (build.calculator prior: extra-data fire / "
+        "subsonic fire / zeroing / RangeError for another fixed shot)")
 ASSUMPTIONS = ["'one integration step' = calc_step + the largest ground advance of one step seen in the step trace of the same shot",
                "row distance equals its multiple within 1e-9 * max(1 ft, multiple)",
                "steps larger than the range are outside the statement (the code pads a second row) and are not generated"]
